@@ -27,13 +27,17 @@ THEOREMS = [
     "HgVerif.Dispatch.output_is_substitution",
     "HgVerif.Dispatch.rank_ground_instance_le",
     "HgVerif.Dispatch.rank_ground_instance_strict",
+    "HgVerif.Dispatch.rank_structure_instance_bound",
+    "HgVerif.Dispatch.rank_structure_instance_le",
+    "HgVerif.Dispatch.rank_structure_instance_strict",
     "HgVerif.Dispatch.rank_respects_instantiation_refuted",
 ]
 CXX_TARGETS = ["hgv_dispatch"]
 RULE = ("synthetic overload families (1-6 overloads, arity 1-3) obtained by generalising a concrete argument tuple "
         "(concrete leaf, structural copy, scalar / whole-TS / size / schema variables from a small shared pool so that "
         "variables repeat across positions, constraints, REF and SIGNAL parameters, scalar parameters with coercion, "
-        "kwargs collectors) plus decoys; <= 5 argument tuples per family (the seed tuple and REF-wrapped / mutated "
+        "kwargs collectors), often together with the concrete specialisation of one of them, plus decoys and 11 hand-written "
+        "rank-critical templates (decay, de-dup, ties, coercion, REF); <= 5 argument tuples per family (the seed tuple and REF-wrapped / mutated "
         "variants); each family registered under 3-6 registration orders. A case is non-trivial when some call has "
         ">= 2 matching candidates (a critical pair: the rank decides) ; distinct by sha1 of the case text")
 TRUSTED = [
@@ -417,6 +421,76 @@ def candidate_matches(ov, args):
     return True, b
 
 
+def ground(p, b):
+    """replace the bound variables of a pattern by concrete leaves / scalars / sizes"""
+    k = p[0]
+    if k in ("var", "TSBvar"):
+        return ("conc", b[("ts", p[1])]) if ("ts", p[1]) in b else p
+    if k == "svar":
+        return ("sconc", b[("sc", p[1])]) if ("sc", p[1]) in b else p
+    if k in ("TS", "TSS"): return (k, ground(p[1], b))
+    if k == "TSL":
+        z = p[2]
+        if z[0] == "szvar" and ("sz", z[1]) in b:
+            z = ("fixed", b[("sz", z[1])])
+        return ("TSL", ground(p[1], b), z)
+    if k == "TSD": return ("TSD", ground(p[1], b), ground(p[2], b))
+    if k == "TSW": return ("TSW", ground(p[1], b), p[2])
+    if k == "TSB": return ("TSB", tuple((f, ground(q, b)) for f, q in p[1]))
+    if k == "REF": return ("REF", ground(p[1], b))
+    return p
+
+
+def _inst_of(bp, ap, sig, kept):
+    """is pattern ap obtained from bp by replacing variables with concrete leaves?  sig: var -> replacement"""
+    def put(key, val):
+        if key in sig and sig[key] != val:
+            return False
+        sig[key] = val
+        return True
+    k = bp[0]
+    if k in ("var", "TSBvar"):
+        if ap == bp:
+            kept.add(("ts", bp[1])); return True
+        return ap[0] == "conc" and put(("ts", bp[1]), ap[1])
+    if k == "svar":
+        if ap == bp:
+            kept.add(("sc", bp[1])); return True
+        return ap[0] == "sconc" and put(("sc", bp[1]), ap[1])
+    if ap[0] != k:
+        return False
+    if k in ("conc", "sconc", "SIGNAL"): return ap == bp
+    if k in ("TS", "TSS", "REF"): return _inst_of(bp[1], ap[1], sig, kept)
+    if k == "TSL":
+        zb, za = bp[2], ap[2]
+        if zb[0] == "szvar":
+            if za == zb: kept.add(("sz", zb[1]))
+            elif za[0] == "fixed":
+                if not put(("sz", zb[1]), za[1]): return False
+            else: return False
+        elif za != zb:
+            return False
+        return _inst_of(bp[1], ap[1], sig, kept)
+    if k == "TSD": return _inst_of(bp[1], ap[1], sig, kept) and _inst_of(bp[2], ap[2], sig, kept)
+    if k == "TSW": return ap[2] == bp[2] and _inst_of(bp[1], ap[1], sig, kept)
+    if k == "TSB":
+        return len(ap[1]) == len(bp[1]) and all(f == g and _inst_of(q, r, sig, kept) for (f, q), (g, r) in zip(bp[1], ap[1]))
+    return False
+
+
+def ground_instance(a_params, b_params):
+    """None, or the set of variables replaced when a_params is b_params with variables made concrete"""
+    if len(a_params) != len(b_params):
+        return None
+    sig, kept = {}, set()
+    for (ka, pa), (kb, pb) in zip(a_params, b_params):
+        if ka != kb or not _inst_of(pb, pa, sig, kept):
+            return None
+    if set(sig) & kept:
+        return None
+    return set(sig)
+
+
 # ------------------------------------------------------------------------------------------------
 # generator
 # ------------------------------------------------------------------------------------------------
@@ -660,6 +734,19 @@ def gen_case(rng, idx, tier):
             if ovs and rng.random() < 0.10:     # a duplicate signature: guaranteed tie when it matches
                 ps = list(ovs[-1][0])
             ovs.append((ps, gen_out(rng, ps), gen_kw(rng)))
+        if len(ovs) < 6 and rng.random() < 0.35:     # a generic candidate together with its concrete specialisation
+            cands = []
+            for ov in ovs:
+                ok, b = candidate_matches((ov[0], None, None), seed)
+                if ok and b:
+                    cands.append((ov, b))
+            if cands:
+                ov, b = rng.choice(cands)
+                if rng.random() < 0.3:               # specialise only some of the variables
+                    keep = rng.choice(sorted(b))
+                    b = {k: v for k, v in b.items() if k != keep}
+                ps = [(k, ground(p, b)) for k, p in ov[0]]
+                ovs.insert(rng.randrange(len(ovs) + 1), (ps, gen_out(rng, ps), None))
         calls = [seed]
         for _ in range(rng.randint(0, 4)):
             c = list(seed)
@@ -698,7 +785,7 @@ def exhaustive_cases(start):
 
 
 def streams(rng, tier, seed):
-    n = 450 if tier == "quick" else 12000
+    n = 900 if tier == "quick" else 12000
     cases = [gen_case(rng, i, tier) for i in range(n)]
     if tier != "quick":
         cases += exhaustive_cases(n)
@@ -707,7 +794,10 @@ def streams(rng, tier, seed):
     if os.path.isdir(cdir):
         for f in sorted(os.listdir(cdir)):
             corpus.append(Case([l.rstrip("\n") for l in open(os.path.join(cdir, f)) if l.strip()]))
-    return [Stream("dispatch", [os.path.join(BUILD, "hgv_dispatch")], model_cmd("C19"), corpus + cases, timeout=1800)]
+    # HGV_DISPATCH_BIN: a harness linked against a privately mutated copy of a header (mutation-testing
+    # the check without forcing a rebuild of the shared tree)
+    impl = os.environ.get("HGV_DISPATCH_BIN") or os.path.join(BUILD, "hgv_dispatch")
+    return [Stream("dispatch", [impl], model_cmd("C19"), corpus + cases, timeout=1800)]
 
 
 # ------------------------------------------------------------------------------------------------
@@ -744,14 +834,14 @@ def _analyse(case, out):
     """walk one case; returns (violations, feature set, nontrivial?)"""
     bad, feats = [], set()
     nontrivial = False
-    family, order, perms = {}, [], []
+    family, order, perms, base = {}, [], [], {}
     for ln, o in zip(case.lines, list(out) + ["<none>"] * len(case.lines)):
         w = ln.split()
         if not w:
             continue
         op = w[0]
         if op == "case":
-            family, order, perms = {}, [], []
+            family, order, perms, base = {}, [], [], {}
             continue
         if o in ("bad-op", "<none>") or o.startswith("<"):
             if o != "bad-op":
@@ -762,6 +852,25 @@ def _analyse(case, out):
                 family[w[1]] = parse_ov_words(w[2:])
                 order.append(w[1])
                 _ov_features(family[w[1]], feats)
+                try:
+                    base[w[1]] = int(o.split()[1])
+                except (IndexError, ValueError):
+                    bad.append("malformed ov answer %r" % o)
+                    continue
+                # "more specific ranks lower", the half that holds for every rank table: a candidate whose
+                # parameters are another's with variables made concrete must rank strictly below it
+                for other in order[:-1]:
+                    for a, b in ((w[1], other), (other, w[1])):
+                        if family[a][2] is not None or family[b][2] is not None or a not in base or b not in base:
+                            continue
+                        dom = ground_instance(family[a][0], family[b][0])
+                        if dom is None or not dom:
+                            continue
+                        feats.add("family:generic-with-concrete-specialisation")
+                        strict = any(k[0] in ("ts", "sc") for k in dom)
+                        if base[a] > base[b] or (strict and base[a] == base[b]):
+                            bad.append("candidate %s is %s with %s made concrete but ranks %d against %d"
+                                       % (a, b, sorted(n for _, n in dom), base[a], base[b]))
             elif op == "perm" and o == "ok":
                 perms.append(w[1:])
             elif op == "call":
